@@ -85,7 +85,7 @@ func runC17(cs *vrt.Case) {
 	what := "generated"
 	if cs.Thorough() && cs.Idx%40 == 39 {
 		var err error
-		c, err = circuit.Parse("/repo/pkg/crypto/aes/aes_128.circ")
+		c, err = circuit.Parse(vrt.Repo+"/pkg/crypto/aes/aes_128.circ")
 		if err != nil {
 			cs.Inconc(err.Error())
 			return
